@@ -3,6 +3,7 @@ package main
 import (
 	"fmt"
 	"go/constant"
+	"go/token"
 	"strconv"
 	"go/types"
 	"sort"
@@ -475,6 +476,52 @@ func (eng *Engine) checkConstMap(cm *ConstMap) (bool, string) {
 		if !got[k] {
 			return false, "missing key " + strconv.Quote(k) + " in " + cm.Name
 		}
+	}
+	return true, ""
+}
+
+// checkConstStr: the k-th call of callee in the named function has exactly one constant string argument, equal to the literal.
+func (eng *Engine) checkConstStr(cs *ConstStr) (bool, string) {
+	var cands []*ssa.Function
+	for _, fn := range eng.funcs {
+		if fn.Pkg != nil && fn.Pkg.Pkg.Path() == cs.PkgPath && fn.Name() == cs.Func {
+			cands = append(cands, fn)
+		}
+	}
+	if len(cands) != 1 {
+		return false, fmt.Sprintf("%d functions named %s in %s", len(cands), cs.Func, cs.PkgPath)
+	}
+	type call struct {
+		pos  token.Pos
+		args []ssa.Value
+	}
+	var calls []call
+	for _, b := range cands[0].Blocks {
+		for _, in := range b.Instrs {
+			ci, ok := in.(ssa.CallInstruction)
+			if !ok {
+				continue
+			}
+			if calleeShortName(ci.Common()) == cs.Callee {
+				calls = append(calls, call{in.Pos(), ci.Common().Args})
+			}
+		}
+	}
+	sort.Slice(calls, func(i, j int) bool { return calls[i].pos < calls[j].pos })
+	if cs.Ord >= len(calls) {
+		return false, fmt.Sprintf("no call %s#%d in %s", cs.Callee, cs.Ord, cs.Func)
+	}
+	var lits []string
+	for _, a := range calls[cs.Ord].args {
+		if c, ok := a.(*ssa.Const); ok && c.Value != nil && c.Value.Kind() == constant.String {
+			lits = append(lits, constant.StringVal(c.Value))
+		}
+	}
+	if len(lits) != 1 {
+		return false, fmt.Sprintf("%s#%d has %d constant string arguments", cs.Callee, cs.Ord, len(lits))
+	}
+	if lits[0] != cs.Want {
+		return false, "the literal is " + strconv.Quote(lits[0])
 	}
 	return true, ""
 }
